@@ -114,10 +114,23 @@ def check(ctx, config, rule):
         I, r = arena.run_fn(ctx, b['id'], config)
         ev = own(r)
         sl = [e for e in ev if e.kind == 'slice']
-        clause('Drain::fill', 'the gap is from_raw_parts_mut(BASE + len, tail_start - len)', len(sl) == 1 and leq(fold(sl[0].args[0]), slot(LEN)) and leq(fold(sl[0].args[1]), app('sub', TS, LEN)), '', b.get('span'))
         w = [e for e in ev if e.kind == 'call' and (e.callee or '').endswith('ptr::write')]
         st = [e for e in ev if e.kind == 'store' and e.lv[0] == 'fld' and e.lv[2].endswith('Vec.len')]
-        okw = len(w) == 1 and 'next' in repr(w[0].args[0]) and 'next' in repr(w[0].args[1])
+        # counter form of the same loop: `let mut k = 0; while k != tail_start - len { write(base.add(len + k), item); k += 1 }`
+        K = None
+        for (bid, h), rec in r.loops.items():
+            if bid != b['id']:
+                continue
+            for l, symv in rec['sym'].items():
+                if rec['init'].get(l) == C(0) and rec['step'] and all(sv['env'].get(l) == app('add', symv, C(1)) for sv in rec['step']):
+                    K = symv
+        if not sl and K is not None:
+            exits = [e for e in ev if e.kind == 'branch' and any(f[0] == 'eq' and {fold(x) if isinstance(x, tuple) else x for x in f[1:]} == {K, app('sub', TS, LEN)} for f in e.extra['added'])]
+            clause('Drain::fill', 'the gap is from_raw_parts_mut(BASE + len, tail_start - len)', len(exits) == 1, 'counter form: the loop ends exactly at k == tail_start - len', b.get('span'))
+            okw = len(w) == 1 and leq(fold(w[0].args[0]), slot(app('add', LEN, K))) and 'next' in repr(w[0].args[1])
+        else:
+            clause('Drain::fill', 'the gap is from_raw_parts_mut(BASE + len, tail_start - len)', len(sl) == 1 and leq(fold(sl[0].args[0]), slot(LEN)) and leq(fold(sl[0].args[1]), app('sub', TS, LEN)), '', b.get('span'))
+            okw = len(w) == 1 and 'next' in repr(w[0].args[0]) and 'next' in repr(w[0].args[1])
         clause('Drain::fill', 'each new item is written into the next gap slot', okw)
         okl = len(st) == 1 and leq(fold(st[0].val), app('add', LEN, C(1))) and bool(w) and r.events.index(w[0]) < r.events.index(st[0])
         clause('Drain::fill', 'vec.len += 1 after each write', okl)
